@@ -123,6 +123,40 @@ def reuse_program(rng):
     return [(10 * (i + 1), blocks[b]) for i, b in enumerate(dict.fromkeys(keep))]
 
 
+_CONVERTIBLE = {"INT", "VAL", "STR$", "HEX$", "INSTR", "STRING$", "INKEY$", "BUTTON", "JOYSTK", "POINT"}
+
+
+def ifelse_call_literals(prog):
+    """String literals inside arguments of run-translated functions in the conditions of IF statements that have an
+    ELSE / ELSE IF part: the position at which the tool is known to drop the hoisted call (and the literal with it)."""
+    out = set()
+
+    def lits(e, inside):
+        k = e[0]
+        if k == "str" and inside:
+            out.add(e[1])
+        elif k == "fn":
+            for a in e[2]:
+                lits(a, inside or e[1] in _CONVERTIBLE)
+        elif k == "arr":
+            for a in e[2]:
+                lits(a, inside)
+        elif k == "bin":
+            lits(e[2], inside)
+            lits(e[3], inside)
+        elif k == "un":
+            lits(e[2], inside)
+        elif k == "par":
+            lits(e[1], inside)
+
+    for _, st in progtools.all_stmts(prog):
+        if st[0] == "if" and (st[3] or st[4] is not None):
+            lits(st[1], False)
+            for c, _ in st[3]:
+                lits(c, False)
+    return out
+
+
 def get_program(case):
     if case.get("reuse"):
         return reuse_program(random.Random(case["seed"]))
@@ -217,8 +251,9 @@ def run_case(case):
         for kind, content in content_spans(lines):
             obs["counters"]["content_spans_checked"] = obs["counters"].get("content_spans_checked", 0) + 1
             if content not in base[1]:
-                obs["viols"].append({"sig": "C08/content/%s-not-preserved" % kind,
-                                     "detail": {"content": content, "canonical": canon_text[:500]}})
+                where = "IF-ELSE-condition-call" if kind == "string" and content in ifelse_call_literals(prog) else "other"
+                sig = "C08/content/%s-not-preserved" % kind if where == "other" else "C08/content/string-lost/IF-ELSE-condition-call"
+                obs["viols"].append({"sig": sig, "detail": {"content": content, "canonical": canon_text[:500]}})
                 break
     if case.get("sample"):
         obs["sample"] = {"canonical": canon_text[:300], "layouts": [v[0] for v in variants][:12], "compared": n}
